@@ -82,6 +82,9 @@ def rs_block_yaml(spec, explicit=False):
 
 
 def node_yaml(n):
+    if n["k"] == "accum":
+        # a stateful user operation (keeps a running total on its instance): every run of a launch must see a fresh one
+        return {"processor": "harness.lib.components:VerifAccumulateOperation"}
     if n["k"] == "sink":
         d = {"processor": "FloatTxtFileSaver"}
         if n.get("cfg"):
@@ -187,7 +190,8 @@ def plan(spec):
 
 def cli(args, cwd, timeout=120, hashseed="0"):
     env = dict(os.environ)
-    env.update({"PYTHONPATH": core.REPO, "PYTHONHASHSEED": hashseed, "PYTHONDONTWRITEBYTECODE": "1"})
+    # /verif on the path only so that harness-side user components (module:Class references) can be imported by the CLI process
+    env.update({"PYTHONPATH": core.REPO + os.pathsep + core.ROOT, "PYTHONHASHSEED": hashseed, "PYTHONDONTWRITEBYTECODE": "1"})
     env.pop("SEMANTIVA_VERIF", None)
     try:
         p = subprocess.run([core.PY, "-m", "semantiva.cli"] + args, cwd=cwd, env=env, stdout=subprocess.PIPE, stderr=subprocess.PIPE,
@@ -378,6 +382,8 @@ def gen_case(rng, n_runs=None, sweep=None, source=None, fail_at=None):
             nodes.append({"k": op, "cfg": {key: rng.choice(VALS)}})
     if rng.random() < 0.3:
         nodes.append({"k": "square"})
+    if not sweep and rng.random() < 0.45:
+        nodes.insert(rng.randint(1, len(nodes)), {"k": "accum"})
     if fail_at is not None:
         nodes.insert(rng.randint(1, len(nodes)), {"k": "divide"})
     has_src_key = None
@@ -671,10 +677,17 @@ def id_base(rng, with_source=True):
     n = rng.choice([2, 3])
     vals = rng.sample(VALS, 5)
     blocks = [{"mode": BP, "context": [["value", vals[:n]], ["factor", [rng.choice(VALS) for _ in range(n)]]], "source": None}]
-    if rng.random() < 0.6:
-        # a string-valued key no node reads: text with line breaks (YAML block scalars end in one)
-        texts = ["first line\nsecond line\n", "tail\n", "a\r\nb", "plain", "two\n\n", "cr\rlf"]
-        blocks[0]["context"].append(["note", [rng.choice(texts) for _ in range(n)]])
+    if True:
+        # a string-valued key no node reads: text with line breaks (YAML block scalars end in one) and non-ASCII text
+        texts = ["first line\nsecond line\n", "tail\n", "a\r\nb", "plain", "two\n\n", "cr\rlf",
+                 "caf\u00e9", "gr\u00f6\u00dfe \u4e2d\u6587", "emoji \U0001F600", "nbsp\u00a0x"]
+        note = [rng.choice(texts) for _ in range(n)]
+        note[0] = rng.choice(texts[:6])          # always one text with a line break ...
+        note[-1] = rng.choice(texts[6:])         # ... and one outside ASCII
+        blocks[0]["context"].append(["note", note])
+        if rng.random() < 0.4:
+            # a non-ASCII KEY (legal YAML mapping key; no node reads it)
+            blocks[0]["context"].append(["gr\u00f6\u00dfe", [rng.choice(VALS) for _ in range(n)]])
     if with_source:
         fmt = rng.choice(["json", "csv"])
         blocks.append({"mode": BP, "context": [], "source": {"format": fmt, "path": "inputs/src." + fmt, "cols": [["gain", [rng.choice(VALS) for _ in range(n)]],
@@ -1148,7 +1161,9 @@ def case_coq(case, ob, tmp, paths_agree):
     obs_launch = ob["starts"][0]["run_space_launch_id"] if ob["starts"] else ""
     spec_id, inputs_id, lid = ids_of(case, L, rt, obs_launch)
     plain, enriched = plids_of(case, tmp)
-    pipe = "(mkPipe %s %s %s)" % (cq_list([pg.node_coq(n) for n in case["nodes"]]), cq_str(plain), cq_str(enriched))
+    # a stateful user operation on a fresh instance is the identity on its first input (data + 0)
+    as_model = lambda n: {"k": "add", "cfg": {"addend": 0}} if n["k"] == "accum" else n
+    pipe = "(mkPipe %s %s %s)" % (cq_list([pg.node_coq(as_model(n)) for n in case["nodes"]]), cq_str(plain), cq_str(enriched))
     cli_ctx = ctx_lit({k: fl(v) for k, v in case.get("cli_ctx", [])})
     opts = "(mkOpts true %s %s %s %s %s %s %s %s %s)" % (cq_bool(case["trace"] != "none"), cq_bool(case["trace"] == "dir"), cli_ctx, cq_str(lid),
                                                          cq_Z(case["attempt"] or 1), cq_str(spec_id), cq_opt(inputs_id, cq_str), cq_str(case["spec"]["combine"]),
